@@ -2,6 +2,7 @@ SPECIFICATION Spec
 CONSTANTS
   Tabs = {"static", "identity", "ewd", "localpart", "regexp", "chain", "file"}
   MaxSteps = 2
+  MaxLines = 2
   Devs = {}
   Gen = FALSE
 INVARIANTS RuleSatisfiesProp
